@@ -313,6 +313,8 @@ def run_check(modname, tier, seed):
             funcs.append({"file": rel, "name": qn, "sha256_16": loader.function_hash(rel, qn)})
         except Exception as e:
             funcs.append({"file": rel, "name": qn, "error": repr(e)})
+    for qn in getattr(mod, "PYX_FUNCTIONS", []):
+        funcs.append({"file": "thejoker/src/fast_likelihood.pyx", "name": qn, "sha256_16": _pyx_hash(qn), "via": "transliteration (symx.pyxfront)"})
     paths = sum(r.get("paths", 0) for r in results)
     vcs = sum(r.get("vcs", 0) for r in results)
     nontriv = sum(r.get("nontrivial", 0) for r in results)
@@ -380,6 +382,28 @@ def run_check(modname, tier, seed):
             print("INCONCLUSIVE: " + m.replace("\n", " | ")[:600])
         return 2
     return 0
+
+
+def _pyx_hash(qualname):
+    """hash of the source lines of one (c)def of the .pyx"""
+    import re
+    try:
+        src = open(os.path.join(REPO, "thejoker/src/fast_likelihood.pyx")).read().split("\n")
+    except OSError:
+        return None
+    name = qualname.split(".")[-1]
+    out, ind = [], None
+    for ln in src:
+        if ind is None:
+            m = re.match(r"^(\s*)c?p?def\s+(?:[\w\*]+\s+)?%s\(" % re.escape(name), ln)
+            if m:
+                ind = len(m.group(1))
+                out.append(ln)
+        else:
+            if ln.strip() and (len(ln) - len(ln.lstrip())) <= ind and not ln.strip().startswith("#"):
+                break
+            out.append(ln)
+    return hashlib.sha256("\n".join(out).encode()).hexdigest()[:16] if out else None
 
 
 def main(argv=None):
